@@ -150,6 +150,9 @@ def gen_cases(rng, tier):
     def rstr():
         k = rng.below(8)
         n = [0, 1, 2, 2, 3, 7, 64, 300][k]
+        if rng.chance(1, 5):
+            # one character that takes 2-4 bytes (the dictionary rule is about BYTES: >= 2 goes in)
+            return rng.choice([b'\xc3\xa9', b'\xe4\xb8\x9c', b'\xf0\x9f\x98\x80', b'\xd9\xa3', b'\xc2\x80', b'\xef\xbf\xbd'])
         if rng.chance(1, 2):
             return bytes([97 + rng.below(3)] * n)
         return bytes(rng.below(256) for _ in range(n))
@@ -160,6 +163,13 @@ def gen_cases(rng, tier):
         for enc, dec in (('strenc', 'strdec'), ('sdenc', 'sddec'), ('bytesenc', 'bytesdec'), ('bdenc', 'bddec')):
             cases.append(dict(kind=enc[:-3], enc=enc + ' ' + ' '.join(hv), decname=dec, count=len(vs), expect1=' '.join(hv)))
             stats[enc[:-3] + '_seq'] += 1
+    # single-character multi-byte strings first, then new longer strings, then repeats of everything
+    for one in (b'\xc3\xa9', b'\xe4\xb8\x9c', b'\xf0\x9f\x98\x80'):
+        vs = [one, b'south', b'west', one, b'south', b'x', b'west', b'south', one]
+        hv = [v.hex() for v in vs]
+        for enc, dec in (('sdenc', 'sddec'), ('bdenc', 'bddec')):
+            cases.append(dict(kind=enc[:-3], enc=enc + ' ' + ' '.join(hv), decname=dec, count=len(vs), expect1=' '.join(hv)))
+            stats[enc[:-3] + '_single_rune'] += 1
     return cases, stats
 
 
